@@ -38,6 +38,11 @@ def implies(a, b):
     return (not a) or b
 
 
+def table_key(fn):
+    """(clause helper) the key under which a function drawn from a dispatch table is registered"""
+    return getattr(fn, "__table_key__", None)
+
+
 class RaiseClause:
     def __init__(self, exc, when, ensures, must):
         self.exc = exc
@@ -80,6 +85,8 @@ class Contract:
         self.fresh_result = None
         self.decreases = None
         self.hints = []
+        self.bv_locals = []
+        self.case_split = {}       # obligation-name suffix -> (expression source, number of cases)
 
     @property
     def key(self):
@@ -190,6 +197,10 @@ def load_file(path, modname):
                 c.covers = _lit(val)
             elif nm == "params":
                 c.params = _lit(val)
+            elif nm == "case_split":
+                c.case_split = _lit(val)
+            elif nm == "bv_locals":
+                c.bv_locals = _lit(val)
             elif nm == "uses_locals":
                 c.uses_locals = _lit(val)
             elif nm == "allocs":
